@@ -480,6 +480,12 @@ func chunkUploader(ctx context.Context,
 				return err
 			}
 
+			// keys are marked as uploaded only now that the chunk is safely stored:
+			// a failed attempt must stream them again.
+			if err := dbReader.MarkRead(); err != nil {
+				return err
+			}
+
 			uploaded := dbReader.Count()
 			atomic.AddUint64(uploadKeysPtr, uploaded)
 
@@ -1048,6 +1054,7 @@ type dbReader struct {
 	logger    *zap.Logger
 	partial   []byte
 	maxKeys   uint64
+	read      [][]byte
 }
 
 func newDBReader(ctx context.Context, db kvStore, indexTime time.Time, logger *zap.Logger, maxKeys uint64) *dbReader {
@@ -1151,10 +1158,8 @@ func (r *dbReader) Read(p []byte) (int, error) {
 			b = key
 			b = append(b, '\n') // add newline to separate keys
 
-			// mark key as read in the DB
-			if err := r.db.Set(key, []byte("X")); err != nil {
-				return 0, fmt.Errorf("failed to mark KV key as read: %w", err)
-			}
+			// remember the key: it is marked as read in the DB once the whole stream has been consumed successfully
+			r.read = append(r.read, key)
 
 			r.count++
 		}
@@ -1168,6 +1173,21 @@ func (r *dbReader) Read(p []byte) (int, error) {
 	copy(p, b)
 
 	return len(b), nil
+}
+
+// MarkRead marks all keys streamed so far as read in the DB.
+func (r *dbReader) MarkRead() error {
+	r.mx.Lock()
+	defer r.mx.Unlock()
+
+	for _, key := range r.read {
+		if err := r.db.Set(key, []byte("X")); err != nil {
+			return fmt.Errorf("failed to mark KV key as read: %w", err)
+		}
+	}
+	r.read = nil
+
+	return nil
 }
 
 func (r *dbReader) Close() error {
